@@ -179,13 +179,6 @@ class Message:
                             return_type = subcls
                             break
                     break
-        else:
-            # a command decoded as its base class (`plain_msg=True`), e.g.
-            # CreditControl -> CreditControlAnswer
-            for subcls in return_type.__subclasses__():
-                if subcls.__name__ == f"{cls_name}Answer":
-                    return_type = subcls
-                    break
         try:
             answer = return_type(hdr)
         except NameError:
